@@ -1,11 +1,25 @@
 import NirVerif.Lemmas.FromList
+import NirVerif.Generated.UniqueName
 
 /-! # C11 — from_list builds exactly the sequential path graph
 
 About `Model.fromList` (hand-written model, tied to `NIRGraph.from_list` by the `graphs`
-correspondence suite).  `Generated.whitelist` ties the set of class names to the source. -/
+correspondence suite).  `Generated.whitelist` ties the set of class names to the source, and
+`Generated.uniqueNameGen` / `nameCounterStep` (translator item T8) are regenerated from the f-string and the counter
+increment of `unique_node_name` on every run: `name_generated` below re-checks the model's naming function against
+what the source says now, for every class name and every index. -/
 namespace NirVerif.C11
 open NirVerif NirVerif.Py NirVerif.Model NirVerif.Lemmas NirVerif.Lemmas.FromList
+
+/-- **The naming function of the source is the model's**: for every base name and every repetition index the name the
+(regenerated) f-string of `unique_node_name` produces is `Model.uniqueName`, and the per-class counter advances by one. -/
+theorem name_generated (b : String) (k : Nat) :
+    Generated.uniqueNameGen b k = uniqueName b k ∧ Generated.nameCounterStep = 1 := by
+  refine ⟨?_, rfl⟩
+  unfold Generated.uniqueNameGen uniqueName
+  by_cases h : k > 0
+  · simp only [h, if_true, String.append_assoc]
+  · simp only [h, if_false, String.append_empty]
 
 /-- The naming scheme `lower-cased class name [_k]` is injective at *string* level on
 (class, repetition index), for all 18 serialisable classes and every index (i / if / li /
